@@ -315,7 +315,7 @@ class Gen:
 
 
 def render(recvs):
-    lines = ["// @generated by gen/c20gen.py - one receiver module per line", "#![allow(unused_macros)]",
+    lines = ["// @generated by gen/c20gen.py - one receiver module per line",
              "// the receivers spell std through this alias, so that every `::`-rooted path in emitted code is darling's own",
              "pub use ::std as ustd;"]
     first = len(lines) + 1
